@@ -189,15 +189,32 @@ def run_scenario(exe, scen_path, workdir=None, case_ids=None, batch_timeout=BATC
                                  stderr=(open(stderr_to, "ab") if stderr_to else subprocess.DEVNULL),
                                  env=env, preexec_fn=_preexec)
             timed_out = False
-            try:
-                rc = p.wait(timeout=batch_timeout)
-            except subprocess.TimeoutExpired:
-                timed_out = True
+            # progress watchdog: the driver flushes a line after every step, so an output file that has not grown
+            # for 2 x case_timeout means one call has been running that long (inconclusive: the case is run
+            # again alone below); the batch limit stays as a backstop
+            deadline = time.time() + batch_timeout
+            stall = max(40, 2 * case_timeout)
+            last_size, last_change = -1, time.time()
+            while True:
                 try:
-                    os.killpg(p.pid, signal.SIGKILL)
-                except OSError:
-                    pass
-                rc = p.wait()
+                    rc = p.wait(timeout=2)
+                    break
+                except subprocess.TimeoutExpired:
+                    try:
+                        sz = os.path.getsize(outp)
+                    except OSError:
+                        sz = 0
+                    now = time.time()
+                    if sz != last_size:
+                        last_size, last_change = sz, now
+                    if now - last_change > stall or now > deadline:
+                        timed_out = True
+                        try:
+                            os.killpg(p.pid, signal.SIGKILL)
+                        except OSError:
+                            pass
+                        rc = p.wait()
+                        break
             order = []
             done, open_id = _parse_out(outp, cases, order)
             san = _collect_san(sanp) + _read_err(outp)
